@@ -5,6 +5,7 @@
 mod util;
 mod text;
 mod codec;
+mod hc;
 
 use std::io::{self, BufRead, Write};
 
@@ -25,6 +26,7 @@ fn main() {
     let make = move || -> Box<dyn Machine> {
         match mode.as_str() {
             "codec" => Box::new(codec::CodecMachine::new()),
+            "hc" => Box::new(hc::HcMachine::new()),
             _ => {
                 eprintln!("unknown mode {}", mode);
                 std::process::exit(2);
@@ -32,6 +34,7 @@ fn main() {
         }
     };
     let mut machine = make();
+    let mut dead = false;
 
     let stdin = io::stdin();
     let stdout = io::stdout();
@@ -47,14 +50,19 @@ fn main() {
         if line.starts_with("===") {
             // case separator: fresh machine, echo the line
             machine = make();
+            dead = false;
             writeln!(out, "{}", line).unwrap();
             continue;
         }
         let toks: Vec<&str> = line.split(' ').filter(|t| !t.is_empty()).collect();
-        let res = util::guarded(|| machine.op(&toks));
-        let text = match res {
-            Ok(s) => s,
-            Err(kind) => format!("trap:{}", kind),
+        // after a panic the objects may be in an arbitrary state: the case is over
+        let text = if dead {
+            String::from("dead")
+        } else {
+            match util::guarded(|| machine.op(&toks)) {
+                Ok(s) => s,
+                Err(kind) => { dead = true; format!("trap:{}", kind) }
+            }
         };
         writeln!(out, "{}", text).unwrap();
         if interactive {
